@@ -131,9 +131,11 @@ def emit_l(src, cfg):
     if c["flavour"] == "c99":
         hdr.append('%option emit="c99"')
         # no macros in this back end: the pre-action, the error exit and the input routine are options
-        hdr.append('%option pre-action="VTOKEV" noyypanic' + (" noyyread" if c.get("userread") else ""))
+        hdr.append('%option pre-action="VTOKEV" noyypanic' + (" noyyread" if (c.get("userread") or c.get("instances")) else ""))
+        if c.get("instances"): hdr.append('%option extra-type="struct vctx *"')
         # yyreject() is expanded by flex in the action text itself
-        vact = "VACT3(%d, yyreject(), yyless(va_))" if (c["reject"] and c["reject"] != "no") else "VACT3(%d, (void)0, yyless(va_))"
+        lessarg = "n_" if c.get("instances") else "va_"
+        vact = ("VACT3(%%d, yyreject(), yyless(%s))" if (c["reject"] and c["reject"] != "no") else "VACT3(%%d, (void)0, yyless(%s))") % lessarg
     hdr.append("%option " + " ".join(opts))
     if c.get("heap"):
         hdr.append("%option noyyalloc noyyrealloc noyyfree")
